@@ -222,6 +222,12 @@ def lib_sq_prod(ex, st, p, r):
     return vbool((p * r) * (p * r) == (p * p) * (r * r))
 
 
+def lib_div_bounds(ex, st, lo, hi, q, n):
+    """n > 0 and lo*n <= q*n <= hi*n  ==>  lo <= q <= hi"""
+    lo, hi, q, n = _r(lo), _r(hi), _r(q), _r(n)
+    return vbool(z3.Implies(z3.And(n > 0, lo * n <= q * n, q * n <= hi * n), z3.And(lo <= q, q <= hi)))
+
+
 def sf_sqrt(ex, st, x):
     from . import mathlib
     ex.ctx.math_used.add("sqrt")
@@ -240,7 +246,8 @@ def lib_schemas():
             ("sq_mono", [], z3.ForAll([a, b], mk(lib_sq_mono, a, b))),
             ("mul_cancel", [], z3.ForAll([a, b, c], mk(lib_mul_cancel, a, b, c))),
             ("sq_eq", [], z3.ForAll([a, b], mk(lib_sq_eq, a, b))),
-            ("sq_prod", [], z3.ForAll([a, b], mk(lib_sq_prod, a, b)))]
+            ("sq_prod", [], z3.ForAll([a, b], mk(lib_sq_prod, a, b))),
+            ("div_bounds", [], z3.ForAll([a, b, c, d], mk(lib_div_bounds, a, b, c, d)))]
 
 
 _install1 = install
@@ -250,4 +257,4 @@ def install(reg):  # noqa: F811
     _install1(reg)
     reg.specfuncs.update(mul_nonneg=lib_mul_nonneg, mul_mono=lib_mul_mono, sq_nonneg=lib_sq_nonneg, distrib=lib_distrib,
                          div_cancel=lib_div_cancel, div_sign=lib_div_sign, sq_mono=lib_sq_mono, mul_cancel=lib_mul_cancel,
-                         sq_eq=lib_sq_eq, sq_prod=lib_sq_prod, sqrt=sf_sqrt)
+                         sq_eq=lib_sq_eq, sq_prod=lib_sq_prod, sqrt=sf_sqrt, div_bounds=lib_div_bounds)
